@@ -125,6 +125,7 @@ func alphaOf(im image.Image) []int {
 
 func checkC07(args []string) {
 	run := vx.NewRun("C07", "translation_validation", args)
+	activeRun = run
 	run.Rule = "alpha pattern classes (binary masks, 2-4 / 5-16 / 17-256 levels, gradients, noise, a single transparent pixel in the last column/row/corner, fully transparent, opaque, smooth-noisy columns) x sizes 1..40 (odd and even widths) and one large picture x AlphaCompression {0,1,-1} x AlphaFiltering {0,1,2,-1} x AlphaQuality {0,1,50,70,71,99,100,-1} x Method 0..6 x Exact x source type; the ALPH chunk of every written file is decoded by the independent TLA+ reader (spec/Alph.tla + Vp8l.tla via TVAlph): with AlphaQuality 100 the plane equals the source alpha and the real decoder's; below 100 it equals the real decoder's, has at most the documented number of levels and keeps min and max. Opaque sources must give files without ALPH that decode opaque. distinct = distinct (pattern, size class, options) cases"
 	run.Assumptions = []string{"the colour planes are not examined here (C04/C06)", "TLA+ decoding of compressed alpha is limited to planes up to about 1600 samples; larger ones are compared through the real decoder only"}
 	rng := rand.New(rand.NewSource(run.Seed))
@@ -161,7 +162,7 @@ func checkC07(args []string) {
 			continue
 		}
 		run.Eval(fmt.Sprintf("%s|%dx%d", sig, w/8, h/8))
-		dec, derr := webp.Decode(bytes.NewReader(out))
+		dec, derr := guardedDecode(out)
 		if derr != nil {
 			run.Violate("decode-fails|"+sig, name+": "+derr.Error(), name)
 			continue
